@@ -46,7 +46,7 @@ pub fn gen_case(seed: u64, index: u64) -> Case {
 fn one(case: &Case, fill: u8, stats: &mut Stats) -> Outcome {
     let mut cfg = case.cfg;
     cfg.fill = fill;
-    let opts = RunOpts { cfg, garbage_seed: case.garbage_seed, shadow: case.shadow, oracles: OracleSet::C17, want_text: false };
+    let opts = RunOpts { cfg, garbage_seed: case.garbage_seed, shadow: case.shadow, oracles: OracleSet::C17, want_text: false, cmp_oracle: false };
     run_ops(&case.ops, &opts, stats, &mut NoHook)
 }
 
